@@ -24,7 +24,7 @@ EXPLANATION = (
     "counter); (G1) the plaintext is handed to the HTTP layer only after a successful decrypt, the failure handler can only "
     "raise (which ends the session), the counter advances between decrypt and delivery on the success path only; (T3) the "
     "wrapper classes pass (nonce, data, aad) to the library in the library's order. Quantifier: all paths; slice bounds are "
-    "compared as terms, not on sample streams."
+    "compared as terms, not on sample streams. Added from seeded faults: where the send counter is advanced once per request by an arithmetic term over the payload length, that term is folded for lengths around the 1024-byte boundaries and must equal the number of frames (a differing length is reported as a witness); a counter threaded through a local and written back is otherwise 'not decided'."
 )
 TRUSTED = [
     "asyncio closes the transport when data_received raises",
